@@ -593,6 +593,50 @@ func EnumPairs(thorough bool, f func(Case)) {
 
 var tripleStmts = []string{"$2 = x", "$i++", "NF = 2", "$0 = \"p q r\"", "a[k]++", "delete a[k]", "i++", "OFS = \"-\"", "$1 = $1", "sub(/b/, \"X\")", "split($0, a)", "getline", "getline $2 < \"pre\"", "x = $(-1)", "u = $(NF+1)", "FS = \",\""}
 
+// ---- statements with empty bodies ------------------------------------------
+//
+// The condition (or header) of a statement whose bodies are all empty is still
+// evaluated: its side effects and run-time errors are the statement's whole
+// meaning. Every spelling is grouped with one that has a harmless body.
+
+func EnumEmptyBody(thorough bool, f func(Case)) {
+	conds := []string{"x++", "x++ < 5", "--x > 2", "x = 0", "(y = 5) > 4", "y += 5", "1 / 0", "x / u", `$0 ~ ("(" x)`, `sub(/a/, "b")`, `gsub(/[0-9]/, "#") > 1`, "(getline line) > 0", `(getline line < "pre") > 0`,
+		"bump()", "bump() && bump()", "x++ || y++", "x-- && y--", "a[\"new\"]", "(\"zz\" in a) || (a[\"zz\"] = 1)", "$3 = \"F\"", "NF = 1", "$(NF + 2)", "length(line = $1)", "match($0, /b/)", "i in a"}
+	for ci, cnd := range conds {
+		forms := []string{
+			"if (C) { zz = 0 }", // reference spelling: a body without observable effect
+			"if (C) ;",
+			"if (C) { }",
+			"if (C) { } else { }",
+			"if (C) ; else ;",
+			"if (C) { ; }",
+			"if (C) { } else { zz = 0 }",
+			"if (!(C)) { } else { }",
+			"zz = (C) ? 0 : 0",
+			"for (; C; ) break",
+			"while (C) break",
+			"do { } while ((C) && 0)",
+		}
+		for fi, fm := range forms {
+			g := fmt.Sprintf("emptybody|%d", ci)
+			if fi == 7 && (strings.Contains(cnd, "&&") || strings.Contains(cnd, "||")) {
+				g = "" // negation does not change what is evaluated, but keep the group strict
+			}
+			stmt := strings.ReplaceAll(fm, "C", cnd)
+			src := "function bump() { x += 10; return x }\n{ " + initStmts + "; y = 1; " + stmt + "; print x, y, line, length(a), NF; print }\n"
+			f(Case{Family: "emptybody", Name: fmt.Sprintf("c%d/f%d", ci, fi), Src: src, Group: g})
+			fsrc := "function bump() { x += 10; return x }\nfunction fn(p, la) { " + strings.ReplaceAll(stmt, "x", "p") + "; return p }\n{ " + initStmts + "; y = 1; print fn(4), y, line, NF; print }\n"
+			if !strings.Contains(cnd, "bump") {
+				fg := ""
+				if g != "" {
+					fg = g + "|fn"
+				}
+				f(Case{Family: "emptybody", Name: fmt.Sprintf("fn/c%d/f%d", ci, fi), Src: fsrc, Group: fg})
+			}
+		}
+	}
+}
+
 // ---- self-referencing assignments ------------------------------------------
 //
 // `v = v op e` where evaluating e changes v: the left operand is read before e
@@ -717,6 +761,7 @@ func EnumC01(thorough bool, f func(Case)) {
 	EnumCond(thorough, f)
 	EnumBoolValue(thorough, f)
 	EnumSelfAssign(thorough, f)
+	EnumEmptyBody(thorough, f)
 	EnumLong(thorough, f)
 	EnumConcat(thorough, f)
 	EnumPairs(thorough, f)
